@@ -113,6 +113,9 @@ def families(tier):
             out.append(dict(prop='C10', family='c10.timeouts_parallel', id=f'c10/par-c{cb}-pa{int(par_a)}-pb{int(par_b)}-p{tp}-c{tc}-o{"".join(order)}', cfg=cfg,
                             params=dict(shape='par_child', tp=tp, tc=tc),
                             scn=dict(buses={b: dict(parallel=(par_a if b == 'A' else par_b)) for b in names}, order=order, handlers=hs, main=main, actors=[], forwards=[], settle=2.0)))
+    # the grammar-generated corpus shared by the bus properties (vsched/gen.py), judged by this property's oracle
+    from .. import gen
+    out += gen.family('C10', tier, params=dict(shape='gen', tp=0.5, tc=None), timeouts=(0.5,), cfg=dict(window=1.2, max_targets=3))
     return out
 
 
